@@ -26,6 +26,9 @@ pub enum COp {
     Iter,
     Retain(&'static str, bool),
     Clear,
+    /// dump the chain of tables reachable from the current table (while every other thread is
+    /// suspended), then iterate: the yield order must be the Lean traverser's on that chain
+    FrozenIter,
     /// compute_if_present with a closure that panics (caught by the worker)
     CipPanic(u32),
     /// (oracle only) what `retain` does to one key after its predicate rejected the value with this origin
@@ -66,6 +69,7 @@ impl COp {
             COp::Reserve(n) => format!("reserve {}", n),
             COp::Len => "len".into(),
             COp::Iter => "iter".into(),
+            COp::FrozenIter => "frozeniter".into(),
             COp::Retain(p, f) => format!("{} {}", if *f { "retainf" } else { "retain" }, p),
             COp::Clear => "clear".into(),
             COp::CipPanic(k) => format!("cippanic {}", k),
@@ -117,6 +121,8 @@ pub struct ConcResult {
     pub panicked: Vec<usize>,
     pub len_final: usize,
     pub life_failures: Vec<String>,
+    /// `ctl …` request for the Lean resize monitor: the run's accesses to the four control words
+    pub ctl_line: String,
 }
 
 type M = HashMap<K, V, TableHasher>;
@@ -224,6 +230,36 @@ fn exec(m: &M, op: &COp, pin: bool, yielded: &mut Vec<(u32, u64, u32)>, closure_
             }
             format!("{}", yielded.len())
         }
+        COp::FrozenIter => {
+            let g = m.guard();
+            let snap = m.verif_snapshot(&g);
+            let mut tables = vec![];
+            let mut cur = snap.table.as_ref();
+            while let Some(t) = cur {
+                let bins: Vec<String> = t
+                    .bins
+                    .iter()
+                    .map(|b| match b {
+                        flurry::verif_inspect::BinSnap::Empty => "-".to_string(),
+                        flurry::verif_inspect::BinSnap::Moved => "M".to_string(),
+                        flurry::verif_inspect::BinSnap::List(ns) => ns.iter().map(|n| format!("{}.{}.{}", n.key.id, n.value.map(|v| v.payload).unwrap_or(0), n.value.map(|v| v.origin).unwrap_or(0))).collect::<Vec<_>>().join("+"),
+                        flurry::verif_inspect::BinSnap::Tree { nodes, .. } => {
+                            if nodes.is_empty() {
+                                "-".to_string()
+                            } else {
+                                nodes.iter().map(|n| format!("{}.{}.{}", n.node.key.id, n.node.value.map(|v| v.payload).unwrap_or(0), n.node.value.map(|v| v.origin).unwrap_or(0))).collect::<Vec<_>>().join("+")
+                            }
+                        }
+                    })
+                    .collect();
+                tables.push(bins.join("|"));
+                cur = t.forward.as_deref();
+            }
+            for (k, v) in m.iter(&g) {
+                yielded.push((k.id, v.payload, v.origin));
+            }
+            format!("{} | chain={}", yielded.len(), if tables.is_empty() { "-".to_string() } else { tables.join(";") })
+        }
         COp::Retain(pred, force) => {
             let p = crate::seq::pred_fn(pred);
             let g = m.guard();
@@ -306,6 +342,12 @@ pub fn run_conc(case: &ConcCase, record_all: bool, budget: usize) -> ConcResult 
             map.insert(K::new(*k, *o), V::new(*v, *o), &g);
         }
     }
+    let field_addrs = map.verif_field_addrs();
+    let (ctl_nstart, ctl_sc0, ctl_ti0) = {
+        let g = map.guard();
+        let sn = map.verif_snapshot(&g);
+        (sn.table.as_ref().map(|t| t.len).unwrap_or(0), sn.size_ctl, sn.transfer_index)
+    };
     let n = case.programs.len();
     let s = Sched::new(n, record_all);
     let calls: Arc<std::sync::Mutex<Vec<Call>>> = Arc::new(std::sync::Mutex::new(vec![]));
@@ -382,7 +424,38 @@ pub fn run_conc(case: &ConcCase, record_all: bool, budget: usize) -> ConcResult 
         let (hbf, _st) = crate::hb::analyze(&trace, n);
         life_failures.extend(hbf);
     }
-    let mut r = ConcResult { calls, trace, outcome, final_contents, final_snap, wf, panicked, len_final, life_failures };
+    // the projection of the event stream onto size_ctl / transfer_index / table / next_table
+    let ctl_line = {
+        let addr_of = |name: &str| field_addrs.iter().find(|(n, _)| *n == name).map(|(_, a)| *a).unwrap_or(0);
+        let (a_tab, a_nt, a_ti, a_sc) = (addr_of("table"), addr_of("next_table"), addr_of("transfer_index"), addr_of("size_ctl"));
+        let mut evs = vec![];
+        for e in &trace {
+            let w = if e.addr == a_sc { "sc" } else if e.addr == a_ti { "ti" } else if e.addr == a_tab { "tab" } else if e.addr == a_nt { "nt" } else { continue };
+            let k = match e.kind {
+                Kind::Load => "ld",
+                Kind::Store => "st",
+                Kind::Swap => "sw",
+                Kind::Cas => "cas",
+                Kind::Yield => "y",
+                _ => continue,
+            };
+            let ptr = w == "tab" || w == "nt";
+            let f = |x: usize| if ptr { (x != 0) as i64 } else { x as isize as i64 };
+            evs.push(format!("{}:{}:{}:{}:{}:{}:{}", e.tid, w, k, f(e.a), f(e.b), e.ok as u8, f(e.seen)));
+        }
+        let nfinal: usize = final_snap.strip_prefix("len=").and_then(|x| x.split(' ').next()).and_then(|x| x.parse().ok()).unwrap_or(0);
+        format!(
+            "ctl ncpu={} nstart={} nfinal={} sc0={} ti0={} q={} ev={}",
+            num_cpus::get_physical(),
+            ctl_nstart,
+            nfinal,
+            ctl_sc0,
+            ctl_ti0,
+            (!stuck) as u8,
+            if evs.is_empty() { "-".to_string() } else { evs.join(",") }
+        )
+    };
+    let mut r = ConcResult { calls, trace, outcome, final_contents, final_snap, wf, panicked, len_final, life_failures, ctl_line };
     // Judge before teardown: when the run already shows a violation the map may be corrupt
     // (an entry retired twice, a dangling bin), and dropping it would take the process down
     // before the violation is reported. Such a map is leaked instead.
@@ -585,7 +658,9 @@ pub fn judge(case: &ConcCase, r: &ConcResult) -> Verdicts {
         let nodes = case.prefill.len() + case.programs.iter().map(|p| p.len()).sum::<usize>();
         let is_iter = case.programs.first().map(|p| p.iter().any(|o| matches!(o, COp::Iter))).unwrap_or(false);
         let bound = if is_iter { 100 + 6 * (2 * table_len + 3 * nodes) } else { 100 + 12 * nodes };
-        if n > bound {
+        // a frozen-chain dump reads every cell of two tables: not a read of the public API
+        let is_dump = case.programs.first().map(|p| p.iter().any(|o| matches!(o, COp::FrozenIter))).unwrap_or(false);
+        if n > bound && !is_dump {
             f.push(format!("[read-blocks] a read running alone needed {} own steps (bound {})", n, bound));
         }
     }
@@ -877,6 +952,35 @@ pub fn gen_conc_mode(id: usize, seed: u64, tier_big: bool, mode: &str) -> ConcCa
             }
             (programs, 64usize, prefill, hashes, "collide")
         }
+        "frozeniter" => {
+            // thread 0 dumps the chain of tables and iterates while every other thread is suspended
+            // somewhere inside its operations (typically in the middle of a resize): the yield
+            // order must be exactly what the Lean traverser produces on the dumped chain
+            let hc = *rng.pick(&["ident", "uniform", "alternate", "fewbins", "split64", "zero"]);
+            let hashes = crate::gen::gen_hashes(&mut rng, hc, 120);
+            let cap = *rng.pick(&[0usize, 1, 2, 5, 10, 21, 42]);
+            let tl = if cap == 0 { 16 } else { (cap + cap / 2 + 1).next_power_of_two() };
+            let pre = (tl - tl / 4).saturating_sub(1 + rng.below(4) as usize).min(60);
+            let prefill: Vec<(u32, u64, u32)> = (0..pre).map(|i| ((i + 1) as u32, rng.below(5), fresh())).collect();
+            let mut programs = vec![vec![COp::FrozenIter]];
+            let mut next_key = pre as u32;
+            for _ in 0..(1 + rng.below(2) as usize) {
+                let mut p = vec![];
+                for _ in 0..(2 + rng.below(4)) {
+                    p.push(match rng.below(7) {
+                        0..=3 => {
+                            next_key += 1;
+                            COp::Ins(next_key, 1, fresh())
+                        }
+                        4 => COp::Reserve(tl + rng.below(2 * tl as u64) as usize),
+                        5 => COp::Rm(1 + rng.below(pre as u64 + 1) as u32),
+                        _ => COp::Ins(1 + rng.below(pre as u64 + 1) as u32, 2, fresh()),
+                    });
+                }
+                programs.push(p);
+            }
+            (programs, cap, prefill, hashes, "frozeniter")
+        }
         "treeresize" => {
             // a tree bin in a 64-bin table whose keys differ in the bits the next two resizes split
             // on; one thread resizes the table while the others remove from / update / look up the
@@ -954,10 +1058,12 @@ pub fn gen_conc_mode(id: usize, seed: u64, tier_big: bool, mode: &str) -> ConcCa
         "resize" => {
             // a table right below its threshold; every thread inserts fresh keys
             let hc = *rng.pick(&["ident", "uniform", "alternate"]);
-            let hashes = crate::gen::gen_hashes(&mut rng, hc, 80);
-            let cap = *rng.pick(&[1usize, 2, 5, 10, 21]);
+            let hashes = crate::gen::gen_hashes(&mut rng, hc, 160);
+            // small tables (a single stride: the initiator does everything) and tables of 64 / 128
+            // bins (4 / 8 strides: helpers really claim work)
+            let cap = *rng.pick(&[1usize, 2, 5, 10, 21, 42, 42, 85]);
             let mut next_key = 1u32;
-            let pre = (cap + cap / 2).min(20);
+            let pre = if cap >= 42 { let tl = (cap + cap / 2 + 1).next_power_of_two(); tl - tl / 4 - 1 - rng.below(3) as usize } else { (cap + cap / 2).min(20) };
             let prefill: Vec<(u32, u64, u32)> = (0..pre).map(|_| { next_key += 1; (next_key, 0, fresh()) }).collect();
             let mut programs = vec![];
             for _ in 0..(2 + rng.below(3) as usize) {
@@ -1097,7 +1203,10 @@ pub fn gen_conc_mode(id: usize, seed: u64, tier_big: bool, mode: &str) -> ConcCa
         2 => Policy::Pct { d: 2, horizon: 200 },
         _ => Policy::Random,
     };
-    let policy = if mode == "solo" { {
+    let policy = if mode == "frozeniter" {
+        // the reader does not run before it runs alone
+        Policy::Solo { reader: 0, start: 0, after: if rng.chance(1, 6) { usize::MAX / 2 } else { rng.below(1500) as usize } }
+    } else if mode == "solo" { {
         let start = if rng.chance(1, 2) { 0 } else { 1 + rng.below(40) as usize };
         let after = if rng.chance(1, 3) { usize::MAX / 2 } else { start + rng.below(400) as usize };
         Policy::Solo { reader: 0, start, after }
